@@ -16,10 +16,31 @@ Tie to the code: the `sel` correspondence runs the real tokenizer + Selector and
 this state machine on the same selector texts (items, specificity, verdict compared), so the rendering
 `Sel.toks` of the grammar is exercised against what the real tokenizer and pre-pass produce.
 
-Partial: the theorem starts at the merged token stream (after the pre-pass); "unchanged by serialising
-and re-parsing" and the @page triple are decided by the oracle on the implementation (`harness/props/c16.py`).
+From the selector TEXT (second half of this file, lemmas in `Proofs/SelectorText.lean`): `Sel.lex` writes a
+selector of the grammar as a sequence of C09 lexemes (identifiers, `#name`, `. : [ ] ( ) * |`, `> + ~`, one
+blank for the descendant combinator and for each blank of a combinator's `Layout`, FUNCTION lexemes for
+functional pseudo-classes and `:not(`, match operators, identifier / string attribute values, numbers /
+dimensions / identifiers / strings / `+` / `-` / blanks as arguments); `Sel.text` is the concatenation of
+their texts, which is the concatenation of the values of `σ.toks` (`text_is_token_values`).  For every `σ`
+with the decidable lexical side condition `σ.NamesOK` (escape-free names spelled as the token values say,
+non-empty compounds, argument lexemes that cannot merge, no `u+` / `+.` at a `+` written without blanks, no
+byte-order mark):
+  * `lexemes_classify`   the lexemes meet the hypotheses of `C09.classify_sequence`;
+  * `tokens_from_text`   tokenizer model on `σ.text`, then the pre-pass = `σ.toks`;
+  * `specificity_from_text`   tokenizer model on `σ.text`, then `Selector.parse` (pre-pass, state machine,
+                         post-conditions): well-formed, no error, specificity = the CSS definition `σ.spec`.
+Every extra condition of `NamesOK` has a kernel-checked example below (`u+b` is a UNICODE-RANGE for the
+tokenizer and the selector is REJECTED — true of /repo as well; `:not(` as a functional pseudo-class name;
+`2n` `-1` without a blank; a leading `þÿ`); `a+.c` shows the one condition that is stronger than necessary
+(inherited from the one-character stop condition `C09.ctxStop` of the delimiter `+`).
+
+Partial: layout is the simple one (exactly one blank where the grammar has white space, no comments); names
+are escape-free and, as in `Sel.WF`, pseudo names are in normal form (lower case) and the negation is spelled
+`:not(`; "unchanged by serialising and re-parsing" and the @page triple are decided by the oracle on the
+implementation (`harness/props/c16.py`).
 -/
 import CssVerif.Proofs.Selector
+import CssVerif.Proofs.SelectorText
 import CssVerif.Gen.Productions
 namespace CssVerif.C16
 open CssVerif CssVerif.Selector
@@ -104,5 +125,145 @@ theorem exSel_text :
     prepass Gen.tables ((tokenize Gen.tables ⟨false, true⟩
       (str "p|a#i.c[q|x~=\"v\"]:hover:nth-child(2n+1):not(.d)::after > *|b:not(|e):before")).toks.map
         (fun k => (TT.ofString k.typ, k.val))) = exSel.toks := by decide +kernel
+
+/-! ## from the selector TEXT to the specificity -/
+
+open CssVerif.C09 (Lexeme canFollow chain ratioFree)
+
+/-- **(i)** the lexeme sequence of a selector meets the hypotheses of `C09.classify_sequence`: every lexeme
+is generated by the token grammar, adjacent lexemes cannot merge, no RATIO, no byte-order mark -/
+theorem lexemes_classify (σ : Sel) (hn : σ.NamesOK = true) :
+    (∀ l ∈ σ.lex, l.wf = true) ∧ chain canFollow σ.lex = true ∧ ratioFree none σ.lex = true ∧
+      startsWithBom σ.text = false :=
+  lex_classify σ hn
+
+/-- the text written for `σ` is the concatenation of the values of its (merged) tokens -/
+theorem text_is_token_values (σ : Sel) (hn : σ.NamesOK = true) : σ.text = σ.toks.flatMap (·.2) :=
+  lex_text σ hn
+
+/-- **(ii)** the tokenizer model, run on the selector text, followed by the token pre-pass of
+`_setSelectorText`, returns exactly the token rendering `σ.toks` that `specificity` starts from -/
+theorem tokens_from_text (σ : Sel) (hn : σ.NamesOK = true) :
+    prepass Gen.tables ((tokenize Gen.tables ⟨false, true⟩ σ.text).toks.map
+      (fun k => (TT.ofString k.typ, k.val))) = σ.toks := by
+  obtain ⟨hwf, hch, hr, hb⟩ := lex_classify σ hn
+  have h := C09.classify_sequence σ.lex hwf hch hr hb
+  have h2 : (tokenize Gen.tables ⟨false, true⟩ σ.text).toks.map (fun k => (TT.ofString k.typ, k.val)) =
+      σ.lex.map tokOf := by
+    have := congrArg (List.map (fun p : String × Text => (TT.ofString p.1, p.2))) h
+    rw [List.map_map, List.map_map] at this
+    exact this
+  rw [h2]
+  exact prepass_lex σ hn
+
+/-- **C16 from the text (iii).**  For every selector `σ` of the level-3 grammar that is well-formed
+(`σ.WF`: declared prefixes, normalised pseudo names) and whose names are lexically fine (`σ.NamesOK`), the
+tokenizer model run on the selector TEXT followed by the whole of `Selector._setSelectorText` (pre-pass,
+state machine, post-conditions) accepts it without an error and reports the specificity of the CSS
+definition. -/
+theorem specificity_from_text (m : NsMap) (σ : Sel) (hw : σ.WF Gen.tables m) (hn : σ.NamesOK = true) :
+    (parse Gen.tables m ((tokenize Gen.tables ⟨false, true⟩ σ.text).toks.map
+      (fun k => (TT.ofString k.typ, k.val)))).wellformed = true ∧
+    (parse Gen.tables m ((tokenize Gen.tables ⟨false, true⟩ σ.text).toks.map
+      (fun k => (TT.ofString k.typ, k.val)))).firstErr = "" ∧
+    (parse Gen.tables m ((tokenize Gen.tables ⟨false, true⟩ σ.text).toks.map
+      (fun k => (TT.ofString k.typ, k.val)))).spec = σ.spec := by
+  unfold parse
+  rw [tokens_from_text σ hn]
+  exact specificity m σ hw
+
+/-! ### non-vacuity: the example selector, from its text -/
+
+theorem exSel_names : exSel.NamesOK = true := by decide +kernel
+
+theorem exSel_text_eq :
+    exSel.text = str "p|a#i.c[q|x~=\"v\"]:hover:nth-child(2n+1):not(.d)::after > *|b:not(|e):before" := by
+  decide +kernel
+
+/-- the text of the example goes through tokenizer, pre-pass, state machine and post-conditions to
+(1, 5, 5) — by the theorem -/
+theorem exSel_from_text :
+    (parse Gen.tables exNs ((tokenize Gen.tables ⟨false, true⟩
+      (str "p|a#i.c[q|x~=\"v\"]:hover:nth-child(2n+1):not(.d)::after > *|b:not(|e):before")).toks.map
+        (fun k => (TT.ofString k.typ, k.val)))).spec = (1, 5, 5) := by
+  rw [← exSel_text_eq]
+  exact (specificity_from_text exNs exSel exSel_wf exSel_names).2.2.trans exSel_spec
+
+/-- … and by running the executable models (a test, labelled as one) -/
+example :
+    (parse Gen.tables exNs ((tokenize Gen.tables ⟨false, true⟩
+      (str "p|a#i.c[q|x~=\"v\"]:hover:nth-child(2n+1):not(.d)::after > *|b:not(|e):before")).toks.map
+        (fun k => (TT.ofString k.typ, k.val)))).spec = (1, 5, 5) := by decide +kernel
+
+/-! ### the conditions of `NamesOK` are needed (kernel-checked) -/
+
+/-- the type selector `n` alone -/
+def tp (n : Text) : Compound := { head := some (.type .none n), parts := [], pelem := none }
+
+theorem tp_wf (m : NsMap) (n : Text) : (tp n).WF Gen.tables m :=
+  ⟨fun h hh => (by cases hh; trivial), fun p hp => (by cases hp), fun e he => (by cases he), Or.inl rfl⟩
+
+/-- what `_setSelectorText` (model) says about the text of `σ`: verdict, first error, specificity -/
+def verdict (m : NsMap) (σ : Sel) : Bool × String × Spec :=
+  let r := parse Gen.tables m ((tokenize Gen.tables ⟨false, true⟩ σ.text).toks.map (fun k => (TT.ofString k.typ, k.val)))
+  (r.wellformed, r.firstErr, r.spec)
+
+/-- `u+b` (type selector `u`, adjacent sibling `b`, no blanks) -/
+def exU : Sel := { first := tp (str "u"), rest := [(.adjacent, ⟨false, false⟩, tp (str "b"))] }
+theorem exU_wf : exU.WF Gen.tables [] :=
+  ⟨tp_wf _ _, fun x hx => (by
+    simp only [exU, List.mem_cons, List.not_mem_nil, or_false] at hx; subst hx; exact tp_wf _ _)⟩
+/-- **`u+` at a combinator without blanks.**  `u+b` is a well-formed selector of the grammar with
+specificity (0, 0, 2), but the tokenizer reads the text `u+b` as one UNICODE-RANGE token and the selector
+is rejected (so does /repo: `Selector('u+b')` raises SyntaxErr) -/
+example : exU.NamesOK = false ∧ exU.spec = (0, 0, 2) ∧ verdict [] exU = (false, "SyntaxErr", (0, 0, 0)) := by
+  decide +kernel
+/-- … with a blank before the `+` (`u +b`) the side condition holds and the theorem applies -/
+example : ({ exU with rest := [(.adjacent, ⟨true, false⟩, tp (str "b"))] } : Sel).NamesOK = true := by decide +kernel
+
+/-- `:not(a)` as a *functional pseudo-class* named `not` -/
+def exNotF : Sel :=
+  { first := { head := none, parts := [.simple (.pfunc (str ":not(") (.ident (str "a")) [])], pelem := none }, rest := [] }
+theorem exNotF_wf : exNotF.WF Gen.tables [] := by
+  refine ⟨⟨fun h hh => (by cases hh), ?_, fun e he => (by cases he), Or.inr (Or.inl (by decide))⟩,
+    fun x hx => (by cases hx)⟩
+  intro p hp
+  simp only [exNotF, List.mem_cons, List.not_mem_nil, or_false] at hp
+  subst hp
+  exact ⟨by decide +kernel, by decide, by decide, by decide⟩
+/-- **the name of a functional pseudo-class is not `not`.**  The token list `(pclass ":not(") (ident a) )`
+satisfies `Sel.WF` and counts (0, 1, 0), but its text `:not(a)` is the negation of a type selector: the
+pre-pass does not return these tokens and the specificity is (0, 0, 1) -/
+example : exNotF.NamesOK = false ∧ exNotF.spec = (0, 1, 0) ∧ verdict [] exNotF = (true, "", (0, 0, 1)) := by
+  decide +kernel
+
+/-- `:nth-child(2n-1)` given as the two argument tokens `2n` and `-1` -/
+def exArgs : Sel :=
+  { first := { head := none,
+               parts := [.simple (.pfunc (str ":nth-child(") (.dimension (str "2n")) [.number (str "-1")])],
+               pelem := none }, rest := [] }
+/-- **adjacent arguments must not merge.**  `2n` `-1` written without a blank is the one DIMENSION `2n-1`:
+the tokens of the text are not the given ones (the specificity is not affected) -/
+example : exArgs.NamesOK = false ∧
+    prepass Gen.tables ((tokenize Gen.tables ⟨false, true⟩ exArgs.text).toks.map
+      (fun k => (TT.ofString k.typ, k.val))) ≠ exArgs.toks := by
+  decide +kernel
+
+/-- **no byte-order mark.**  The type selector `þÿ` is an identifier by the grammar, but at the start of
+the text the tokenizer takes it as a BOM and the selector is rejected -/
+example : ({ first := tp [254, 255], rest := [] } : Sel).NamesOK = false ∧
+    verdict [] { first := tp [254, 255], rest := [] } = (false, "SyntaxErr", (0, 0, 0)) := by
+  decide +kernel
+
+/-- `a+.c` -/
+def exDot : Sel :=
+  { first := tp (str "a"),
+    rest := [(.adjacent, ⟨false, false⟩, { head := none, parts := [.simple (.cls (str ".c"))], pelem := none })] }
+/-- **`+.` is excluded but harmless** (the one condition of `NamesOK` that is stronger than necessary): the
+text `a+.c` is outside the hypotheses of `C09.classify_sequence` (`ctxStop` wants no `.` right after the
+delimiter `+`), yet the models return the expected specificity; `a+ .c` and `a + .c` are covered -/
+example : exDot.NamesOK = false ∧ verdict [] exDot = (true, "", exDot.spec) ∧
+    ({ exDot with rest := [(.adjacent, ⟨false, true⟩, { head := none, parts := [.simple (.cls (str ".c"))], pelem := none })] } : Sel).NamesOK = true := by
+  decide +kernel
 
 end CssVerif.C16
